@@ -23,9 +23,12 @@ import (
 
 	"github.com/nyaruka/gocommon/dates"
 	"github.com/nyaruka/gocommon/i18n"
+	"github.com/nyaruka/goflow/assets"
+	"github.com/nyaruka/goflow/assets/static"
 	"github.com/nyaruka/goflow/envs"
 	"github.com/nyaruka/goflow/excellent/operators"
 	"github.com/nyaruka/goflow/excellent/types"
+	"github.com/nyaruka/goflow/flows"
 
 	"verifharness/pkg/hx"
 )
@@ -382,6 +385,48 @@ func runDates(o *hx.Opts, res *hx.Result, r *hx.Rand) {
 			res.Dist("dt:localized-ampm-env")
 		}
 
+		// what the statement asks of a value re-read from the ISO text / from the environment format
+		judgeISO := func(b time.Time) (string, string) {
+			want := time.Unix(t.Unix(), int64(t.Nanosecond()/1000*1000))
+			if b.Equal(want) {
+				return "", ""
+			}
+			class := "iso-datetime-roundtrip"
+			if voff%60 != 0 && b.Sub(want) == time.Duration(voff%60)*time.Second {
+				class = "iso-datetime-roundtrip:zone-offset-seconds-dropped"
+			}
+			return class, fmt.Sprintf("(zone offset %ds) re-read as %s, off by %s", voff, b.Format(time.RFC3339Nano), b.Sub(want))
+		}
+		judgeFmt := func(b time.Time) (string, string) {
+			tl := t.In(e.loc)
+			fa, fb := fieldsOf(tl, e.seconds()), fieldsOf(b.In(e.loc), e.seconds())
+			if fa != fb {
+				class := "envformat-datetime-roundtrip:" + e.fmtName()
+				fc := fb
+				fc[3] = fa[3]
+				if e.twelve() && e.localized() && fc == fa && (fa[3]-fb[3]+24)%12 == 0 {
+					class = "envformat-datetime-roundtrip:localized-ampm-marker-not-recognised"
+				} else if g := time.Date(fa[0], time.Month(fa[1]), fa[2], fa[3], fa[4], fa[5], 0, e.loc); fieldsOf(g, e.seconds()) != fa && g.Equal(b) {
+					// the rendered minute (or second) begins inside a gap of the zone: that wall-clock time does not
+					// exist, and the result is exactly what time.Date makes of it
+					class = "envformat-datetime-roundtrip:rendered-time-starts-in-zone-gap"
+				}
+				return class, fmt.Sprintf("re-read as %s: fields %v, expected %v", b.In(e.loc).Format(time.RFC3339Nano), fb, fa)
+			}
+			// same value at the rendered precision: the instant with the unrendered part removed
+			dropped := time.Duration(tl.Nanosecond())
+			if !e.seconds() {
+				dropped += time.Duration(tl.Second()) * time.Second
+			}
+			if want := t.Add(-dropped); !b.Equal(want) {
+				// same wall-clock fields, other instant: the local time occurs twice in the zone (the text has no offset)
+				return "envformat-datetime-roundtrip:repeated-hour-resolved-to-other-instant",
+					fmt.Sprintf("re-read as %s, the same local time but %s away from %s", b.In(e.loc).Format(time.RFC3339Nano), b.Sub(want), want.In(e.loc).Format(time.RFC3339Nano))
+			}
+			return "", ""
+		}
+		fill := dates.ExtractTimeOfDay(e.env.Now())
+
 		// ISO
 		isoTxt := x.Render()
 		res.OracleChecks++
@@ -391,13 +436,8 @@ func runDates(o *hx.Opts, res *hx.Result, r *hx.Rand) {
 		} else {
 			b := bx.Native()
 			isoBack = &b
-			want := time.Unix(t.Unix(), int64(t.Nanosecond()/1000*1000))
-			if !b.Equal(want) {
-				class := "iso-datetime-roundtrip"
-				if voff%60 != 0 && b.Sub(want) == time.Duration(voff%60)*time.Second {
-					class = "iso-datetime-roundtrip:zone-offset-seconds-dropped"
-				}
-				res.Fail(class, input, fmt.Sprintf("Render gave %q (zone offset %ds), ToXDateTime gave %s, off by %s", isoTxt, voff, b.Format(time.RFC3339Nano), b.Sub(want)))
+			if class, detail := judgeISO(b); class != "" {
+				res.Fail(class, input, fmt.Sprintf("Render gave %q, ToXDateTime: %s", isoTxt, detail))
 			}
 		}
 
@@ -410,20 +450,30 @@ func runDates(o *hx.Opts, res *hx.Result, r *hx.Rand) {
 		} else {
 			b := bx.Native()
 			fmtBack = &b
-			fa, fb := fieldsOf(t.In(e.loc), e.seconds()), fieldsOf(b.In(e.loc), e.seconds())
-			if fa != fb {
-				class := "envformat-datetime-roundtrip:" + e.fmtName()
-				fc := fb
-				fc[3] = fa[3]
-				if e.twelve() && e.localized() && fc == fa && (fa[3]-fb[3]+24)%12 == 0 {
-					class = "envformat-datetime-roundtrip:localized-ampm-marker-not-recognised"
-				} else if g := time.Date(fa[0], time.Month(fa[1]), fa[2], fa[3], fa[4], fa[5], 0, e.loc); fieldsOf(g, e.seconds()) != fa && g.Equal(b) {
-					// the rendered minute (or second) begins inside a gap of the zone: that wall-clock time does not
-					// exist, and the result is exactly what time.Date makes of it
-					class = "envformat-datetime-roundtrip:rendered-time-starts-in-zone-gap"
-				}
-				res.Fail(class, input, fmt.Sprintf("Format gave %q, ToXDateTime gave %s: fields %v, expected %v", fmtTxt, b.In(e.loc).Format(time.RFC3339Nano), fb, fa))
+			if class, detail := judgeFmt(b); class != "" {
+				res.Fail(class, input, fmt.Sprintf("Format gave %q, ToXDateTime: %s", fmtTxt, detail))
 			}
+		}
+
+		// the same two texts as the stored text of a contact field value (flows/field.go FieldValues.Parse)
+		for k, txt := range []string{isoTxt, fmtTxt} {
+			res.OracleChecks++
+			v := flows.FieldValues{}.Parse(e.env, nil, dtField, txt)
+			var fback *time.Time
+			if v == nil || v.Datetime == nil {
+				res.Fail([]string{"iso-datetime-not-reparsed", "envformat-datetime-not-reparsed:" + e.fmtName()}[k], input, fmt.Sprintf("FieldValues.Parse(%q) has no datetime", txt))
+			} else {
+				b := v.Datetime.Native()
+				fback = &b
+				judge := judgeISO
+				if k == 1 {
+					judge = judgeFmt
+				}
+				if class, detail := judge(b); class != "" {
+					res.Fail(class, input, fmt.Sprintf("FieldValues.Parse(%q).Datetime: %s", txt, detail))
+				}
+			}
+			w.add(coqField(e, fill, txt, v, fback), input, fmt.Sprint(fback))
 		}
 
 		// "=" agrees with the canonical renderings
@@ -499,6 +549,16 @@ func runDates(o *hx.Opts, res *hx.Result, r *hx.Rand) {
 		}
 		w.add(fmt.Sprintf("KDtParse %s %s %s %s", coqTable(ez), e.coq(), hx.Str(s), optNanos(back)), input, fmt.Sprint(back))
 
+		{
+			fill := dates.ExtractTimeOfDay(e.env.Now())
+			v := flows.FieldValues{}.Parse(e.env, nil, dtField, s)
+			var fb *time.Time
+			if v != nil && v.Datetime != nil {
+				b := v.Datetime.Native()
+				fb = &b
+			}
+			w.add(coqField(e, fill, s, v, fb), input, fmt.Sprint(fb))
+		}
 		if i%2 == 0 {
 			dback := "None"
 			if bx, xerr := types.ToXDate(e.env, types.NewXText(s)); xerr == nil {
@@ -595,6 +655,25 @@ func runDates(o *hx.Opts, res *hx.Result, r *hx.Rand) {
 			hx.Str(ttxts[0]), hx.Str(ttxts[1]), tbacks[0], tbacks[1]), tinput, map[string]any{"texts": ttxts, "backs": tbacks})
 	}
 	w.flush()
+}
+
+var dtField = flows.NewField(static.NewField("d2f852ec-7b4e-457f-ae7f-f8b243c49ff6", "joined", "Joined", assets.FieldTypeDatetime))
+
+// KField case: what FieldValues.Parse stored for a raw text
+func coqField(e *denv, fill dates.TimeOfDay, raw string, v *flows.Value, dt *time.Time) string {
+	r := "None"
+	if v != nil {
+		num := "None"
+		if v.Number != nil {
+			num = optDec(toDnum(v.Number))
+		}
+		r = fmt.Sprintf("(Some (%s, %s))", num, optNanos(dt))
+	}
+	var ez []period
+	if dt != nil {
+		ez = zonePeriods(e.loc, *dt)
+	}
+	return fmt.Sprintf("KField %s %s %s %s %s %s %s %s", coqTable(ez), e.coq(), hx.Z(int64(fill.Hour)), hx.Z(int64(fill.Minute)), hx.Z(int64(fill.Second)), hx.Z(int64(fill.Nanos)), hx.Str(raw), r)
 }
 
 func coqTod(t dates.TimeOfDay) string {
